@@ -499,3 +499,201 @@ func checkSourceErrorsWrapped(p *Program, r *Result, pkgs []string) {
 		}
 	}
 }
+
+// checkErrorsExaminedOnEveryPath (R13.8): an error result that the function looks at is
+// looked at on every path. From each call with an (extracted) error result E, every path to
+// a return must test E (any branch whose condition mentions E), or return E or an error built
+// from it, or store it. A path that reaches a return without any of these decided "success"
+// by something else (a byte count, a flag) while E may be non-nil: the failure is masked.
+func checkErrorsExaminedOnEveryPath(p *Program, r *Result, pkgs []string) {
+	n := 0
+	for _, fn := range p.Funcs {
+		if !inPkg(fn, pkgs...) || len(fn.Blocks) == 0 {
+			continue
+		}
+		tb := p.TB(fn)
+		for _, b := range fn.Blocks {
+			for _, in := range b.Instrs {
+				c, ok := in.(*ssa.Call)
+				if !ok {
+					continue
+				}
+				sig := c.Call.Signature()
+				if sig == nil {
+					continue
+				}
+				ei := errorResultIndex(sig)
+				if ei < 0 {
+					continue
+				}
+				var errv ssa.Value
+				if sig.Results().Len() == 1 {
+					errv = c
+				} else if c.Referrers() != nil {
+					for _, rr := range *c.Referrers() {
+						if ex, ok := rr.(*ssa.Extract); ok && ex.Index == ei {
+							errv = ex
+						}
+					}
+				}
+				if errv == nil || errv.Referrers() == nil {
+					continue // never extracted: R13.1's business
+				}
+				used := false
+				for _, rr := range *errv.Referrers() {
+					if _, dbg := rr.(*ssa.DebugRef); !dbg {
+						used = true
+					}
+				}
+				if !used {
+					continue
+				}
+				name := tb.resolvedCalleeName(&c.Call)
+				if _, never := neverFails[name]; never {
+					continue
+				}
+				// values that carry E: E itself, conversions, merges, wrappers
+				carries := map[ssa.Value]bool{errv: true}
+				for changed := true; changed; {
+					changed = false
+					for v := range carries {
+						if v.Referrers() == nil {
+							continue
+						}
+						for _, rr := range *v.Referrers() {
+							switch x := rr.(type) {
+							case *ssa.Phi, *ssa.MakeInterface, *ssa.ChangeInterface, *ssa.ChangeType:
+								if xv := rr.(ssa.Value); !carries[xv] {
+									carries[xv], changed = true, true
+								}
+							case *ssa.Store:
+								// into a varargs array: the call consuming the slice carries it
+								if ia, ok := x.Addr.(*ssa.IndexAddr); ok && x.Val == v {
+									if al, ok := ia.X.(*ssa.Alloc); ok && al.Referrers() != nil {
+										for _, r3 := range *al.Referrers() {
+											if sl, ok := r3.(*ssa.Slice); ok && !carries[sl] {
+												carries[sl], changed = true, true
+											}
+										}
+									}
+								}
+							case *ssa.Call:
+								cn := calleeName(&x.Call)
+								if (cn == "fmt.Errorf" || strings.HasSuffix(cn, ".errorf") || strings.HasSuffix(cn, ".setErr")) && !carries[x] {
+									carries[x], changed = true, true
+								}
+							}
+						}
+					}
+				}
+				paths, okp := p.EnumPathsStop(b, nil)
+				if !okp {
+					continue
+				}
+				bad := ""
+				for _, pa := range paths {
+					if pa.End != "return" {
+						continue
+					}
+					// only the part of the path after the call matters; conditions before it in the
+					// same block cannot exist (the call is in the first block of the path)
+					examined := false
+					for i, blk := range pa.Blocks {
+						if i >= len(pa.Edge) || pa.Edge[i] < 0 {
+							continue
+						}
+						ifi, ok := blk.Instrs[len(blk.Instrs)-1].(*ssa.If)
+						if !ok {
+							continue
+						}
+						if valueMentions(ifi.Cond, carries, 0) {
+							examined = true
+						}
+					}
+					if examined {
+						continue
+					}
+					ret := pa.Last.(*ssa.Return)
+					for _, rv := range resultsOf(ret) {
+						if carries[pa.Resolve(rv)] || carries[rv] {
+							examined = true
+						}
+					}
+					// some other error is reported on this path: that is a failure, too
+					if fei := errorResultIndex(fn.Signature); fei >= 0 && !examined {
+						ev := pa.Resolve(resultsOf(ret)[fei])
+						if p.definitelyNonNil(ev, 0) {
+							examined = true
+						}
+						for _, a := range tb.pathAtoms(pa) {
+							if a.Kind == "cmp" && a.Op == "!=" && a.Y != nil && a.Y.Op == "Nil" && a.X != nil && a.X.V != nil && (a.X.V == ev || stripConv(a.X.V) == stripConv(ev)) {
+								examined = true
+							}
+						}
+					}
+					// stored somewhere on the path (sticky error field, captured variable)
+					for _, pin := range pa.Instrs() {
+						if st, ok := pin.(*ssa.Store); ok && carries[st.Val] {
+							examined = true
+						}
+						if pc, ok := pin.(ssa.CallInstruction); ok && pin != ssa.Instruction(c) {
+							for _, a := range pc.Common().Args {
+								if carries[a] {
+									examined = true
+								}
+							}
+						}
+					}
+					if !examined {
+						bad = "path " + pa.String() + " reaches the return at " + r.pos(ret) + " without having looked at the error of " + short(name)
+						break
+					}
+				}
+				n++
+				if bad != "" {
+					r.Bad(fn.String(), "errpath:"+short(name)+"@"+itoa(p.Fset.Position(c.Pos()).Line-p.Fset.Position(fn.Pos()).Line), r.pos(c), bad+": a failure would be masked by whatever else decided that path")
+				}
+			}
+		}
+	}
+	if n > 0 {
+		r.OK("library", "errpaths", "", itoa(n)+" error results, each examined, returned or stored on every path to a return")
+	}
+}
+
+// valueMentions: the value is computed from one of the given values.
+func valueMentions(v ssa.Value, set map[ssa.Value]bool, depth int) bool {
+	if depth > 8 || v == nil {
+		return false
+	}
+	if set[v] {
+		return true
+	}
+	switch x := v.(type) {
+	case *ssa.BinOp:
+		return valueMentions(x.X, set, depth+1) || valueMentions(x.Y, set, depth+1)
+	case *ssa.UnOp:
+		return valueMentions(x.X, set, depth+1)
+	case *ssa.Phi:
+		for _, e := range x.Edges {
+			if valueMentions(e, set, depth+1) {
+				return true
+			}
+		}
+	case *ssa.Call:
+		for _, a := range x.Call.Args {
+			if valueMentions(a, set, depth+1) {
+				return true
+			}
+		}
+	case *ssa.MakeInterface:
+		return valueMentions(x.X, set, depth+1)
+	case *ssa.ChangeInterface:
+		return valueMentions(x.X, set, depth+1)
+	case *ssa.TypeAssert:
+		return valueMentions(x.X, set, depth+1)
+	case *ssa.Extract:
+		return valueMentions(x.Tuple, set, depth+1)
+	}
+	return false
+}
